@@ -2,16 +2,17 @@ CFG = dict(
     n={'quick': 1500, 'thorough': 20000},
     oracle=True,
     reference=True,
-    corr='Sig.ecdsa_verify / ed25519_verify / pkcs1_verify / pss_verify, DER.der_decode / der_encode / parse_sig, Sig.p1363_* '
+    corr='Sig.ecdsa_verify / ed25519_verify / pkcs1_verify / pss_verify over Rsa8017.rfc_pkcs1_verify / rfc_pss_verify, DER.der_decode / der_encode / parse_sig, Sig.p1363_* '
          '(extracted model over stdlib oracles) vs tink-go Sign/Verify (per-key constructors, keyset handle + signature factory, '
          'signature/subtle, internal/signature) and the ECDSA codecs, on fresh signatures, their mutations and re-encodings',
     coq_targets=['props/C03.vo'],
     rule='one case = (kind V/S/D/E, API, scheme, parameters, variant, mutation label, observed result); distinct = distinct such '
          'class strings computed by the harness; all random choices from one PRNG state (VERIF_SEED); RSA keys are fresh per run',
-    trusted=['stdlib oracle ops: hash, ecdsa_verify (crypto/ecdsa.Verify on (r,s)), ed25519_verify, rsa_pkcs1_core (crypto/rsa.VerifyPKCS1v15 on the '
-             'signature re-encoded to modulus length), rsa_pss_core_strict = harness/p/c03/pssref on the re-encoded signature; pssref = (RFC 8017 EMSA-PSS transcription over math/big, salt length enforced exactly; '
+    trusted=['stdlib oracle ops used by the model run: hash, ecdsa_verify (crypto/ecdsa.Verify on (r,s)), ed25519_verify, rsa_ep (s^e mod n, math/big); '
+             'RSA verification itself is the extracted Coq transcription of RFC 8017 (model/Rsa8017.v). The direct oracle (no model) uses '
+             'crypto/rsa.VerifyPKCS1v15 and harness/p/c03/pssref; pssref = (RFC 8017 EMSA-PSS transcription over math/big, salt length enforced exactly; '
              'cross-checked against crypto/rsa.VerifyPSS for every sLen >= 1 case)',
-             'oracle hypotheses of the sign-then-verify theorems: raw_verify pk h (raw_sign sk h) = true, r,s < 256^field_size, |ed25519 sig| = 64'],
+             'oracle hypotheses of the sign-then-verify theorems: raw_verify pk h (raw_sign sk h) = true (ECDSA, Ed25519; for RSA proved from rsaep(rsadp m) = m on [0,n) and the hash length/byte laws), r,s < 256^field_size, |ed25519 sig| = 64'],
     assumptions=['ECDSA / EdDSA / RSA mathematics and the hash functions are oracles (Section variables): the theorems hold for every instantiation',
                  'DER lengths of 2^32 bytes and more are outside the theorem (cryptobyte accepts at most 4 length octets; side condition der_fits)'],
 )
@@ -43,17 +44,26 @@ MANIFEST = dict(
          'signature under the SAME key for another representative (the EUF-CMA shaped event) or a hash collision on two distinct strings; other '
          'key: the literal clause "rejected under other keys" is REFUTED for ECDSA (C03_ecdsa_other_key_rejected_refuted): under the public-key '
          'recovery law, which real ECDSA satisfies, the genuine signature is accepted for any message under the key recovered from it. '
+         'Third round (model/Rsa8017.v, proofs/Rsa8017Proofs.v): RFC 8017 transcribed from the RFC in Coq -- I2OSP/OS2IP, RSAVP1, EMSA-PKCS1-v1_5 with '
+         'the DigestInfo prefixes, MGF1, EMSA-PSS-ENCODE/-VERIFY, RSASSA-PKCS1-v1_5 and RSASSA-PSS sign and verify -- over the oracles Hash, '
+         'x^e mod n and x^d mod n: (11) EMSA-PSS-VERIFY accepts exactly the EMSA-PSS encodings of mHash with a salt of exactly sLen octets and an '
+         'encoded message determines its salt (only law: hash length); (12) RSASSA sign-then-verify for PKCS1 and PSS from the RFC algorithms alone, '
+         'under the round-trip law of the RSA permutation on [0,n) and the length / byte-range laws of the hash (the law "verify accepts sign" of '
+         '(4) is thereby PROVED for this instance, not assumed); (13) the RFC verifications are length-check-then-core, so (8) and (9) hold for them; '
+         'tink-go Verify with the RFC verifier accepts sig iff sig = prefix || body with RSASSA-*-VERIFY(body, Hash(msg || legacy suffix)) and accepts '
+         'prefix || RFC signature. These extracted RFC functions ARE the standard RSA verification of the model run: the standard library answers '
+         'only the hash and s^e mod n (math/big); crypto/rsa appears only in the separate direct oracle. '
          'The models are tied to the code by running the extracted model (OCaml, stdlib oracle for hash/ECDSA/Ed25519/RSA) and tink-go on the same '
          'cases: fresh Tink signatures for every curve x hash x encoding x variant, Ed25519, RSA 2048/3072 x SHA256/384/512 x PKCS1/PSS salt '
          'lengths through four API levels, and a mutation / re-encoding stream (non-minimal INTEGER, leading 00/ff, long-form and indefinite '
          'lengths, trailing bytes, negative, zero, r+n, n-s, swapped, wrong width, prefix edits, other key, other variant/hash/salt, modified '
          'message, truncation, bit flips, random strings; RSA len-1 / len+1 front and back, PKCS1 and PSS genuine signatures with a leading '
-         'zero byte presented zero-stripped; the ECDSA key recovered from a fresh signature, which must be ACCEPTED) with exact accept/reject prediction -- the extracted std_pkcs1 / std_pss decide the length while the '
-         'oracle answers a length-agnostic core (signature read as an integer); plus a direct oracle (no model) comparing tink-go '
+         'zero byte presented zero-stripped; the ECDSA key recovered from a fresh signature, which must be ACCEPTED) with exact accept/reject prediction -- decided by the extracted RFC 8017 functions (length check, '
+         'RSAVP1 range check, I2OSP, EMSA comparison / EMSA-PSS-VERIFY with strict salt length), a dozen directed zero-stripped cases per run; plus a direct oracle (no model) comparing tink-go '
          'with a stdlib-only strict verifier, checking own signatures, stdlib-equality of deterministic signatures and rejection of mutants.',
     note='Trusted: Coq kernel, ExtrOcamlBasic extraction + OCaml glue, the Go harness and the stdlib oracle (Go standard library taken as the '
-         'definition of the standard algorithms; RSASSA-PSS with an exactly enforced salt length is a 100-line RFC 8017 transcription because '
-         'crypto/rsa reads salt length 0 as auto). The models are hand-written: the tie is the correspondence on the explored cases, not a '
+         'definition of the standard algorithms; for RSA the model run uses its own Coq transcription of RFC 8017 over hash and modular exponentiation; the 100-line Go '
+         'transcription pssref serves the direct oracle because crypto/rsa reads salt length 0 as auto). The models are hand-written: the tie is the correspondence on the explored cases, not a '
          'translation. Cryptographic unforgeability is not a theorem: "modified signatures are rejected" is proved in the set-theoretic form '
          '(accepted iff it is the unique encoding of a pair the standard verification accepts), "modified message / other key rejected" as a '
          'named oracle event (iff) and, for the same key, as a reduction to an oracle forgery or hash collision; no no-forgery law is assumed '
